@@ -89,11 +89,20 @@ FramingFields(r) ==
 Announced(r) == ~("noAnnounce" \in DOMAIN r /\ r.noAnnounce)
 TrailerNames(r) == JoinWith([k \in 1 .. Len(r.trailers) |-> r.trailers[k].name], ", ")
 
+\* optional fields clBefore / clAfter (decimal strings): a chunked request that ALSO carries a Content-Length field,
+\* in front of / behind Transfer-Encoding.  Transfer-Encoding overrides it (RFC 7230 3.3.3 (3)); such a request may be
+\* refused, but Content-Length must never decide where it ends
+OptStr(r, f) == IF f \in DOMAIN r THEN r[f] ELSE ""
+Ambiguous(r) == r.raw = "" /\ r.framing = "chunked" /\ (OptStr(r, "clBefore") # "" \/ OptStr(r, "clAfter") # "")
+ClLine(v) == IF v = "" THEN "" ELSE "Content-Length: " \o v \o CRLF
+
 Head_(r) ==
     IF r.raw # "" THEN r.raw ELSE      \* a literal (malformed) request: these bytes, no body
     r.method \o " " \o r.target \o " HTTP/" \o r.ver \o CRLF
     \o ConcatStr([k \in 1 .. Len(r.fields) |-> FieldLine(r.fields[k])])
+    \o ClLine(OptStr(r, "clBefore"))
     \o ConcatStr([k \in 1 .. Len(FramingFields(r)) |-> FieldLine(FramingFields(r)[k])])
+    \o ClLine(OptStr(r, "clAfter"))
     \o (IF r.trailers # << >> /\ Announced(r) THEN "Trailer: " \o TrailerNames(r) \o CRLF ELSE "")
     \o (IF r.expect100 THEN "Expect: 100-continue" \o CRLF ELSE "")
     \o (IF r.close THEN "Connection: close" \o CRLF ELSE IF r.ver = "1.0" THEN "Connection: keep-alive" \o CRLF ELSE "")
